@@ -70,3 +70,57 @@ func ZZ_C11_residue_witness() {
 	zzResidue(true)
 	vpAssert(false, "witness")
 }
+
+// C11/C08: a Commit whose manifest syncs fail (0..3 times in a row; Commit
+// retries three times) and, when it gave up, a Discard; then the process ends
+// and the DB is reopened: the reopen succeeds, and the transaction's write is
+// visible exactly when Commit reported success.
+func ZZ_C11_failed_commit_reopen() {
+	mem := storage.NewMemStorage()
+	nfail := 0
+	fs := &zzFaultStor{Storage: mem, failWrite: new(bool), failSync: new(bool), failSyncN: &nfail}
+	cs := &zzCrashStor{Storage: fs, crashAt: -1} // tracks open handles ("process exit")
+	s := zzSession(cs, 64<<20)
+	s.setOptions(&opt.Options{Compression: opt.NoCompression, WriteBuffer: 64})
+	s.tops = newTableOps(s)
+	vpAssert(s.create() == nil, "setup-create")
+	s.markFileNum(4)
+	rec := &sessionRecord{}
+	rec.setJournalNum(3)
+	rec.setSeqNum(10)
+	vpAssert(s.commit(rec, false) == nil, "setup-commit")
+	zzPutJournal(mem, 3, 11, nil) // an empty current journal
+	db := &DB{
+		s:           s,
+		seq:         10,
+		snapsList:   list.New(),
+		memPool:     make(chan *memdb.DB, 1),
+		writeLockC:  make(chan struct{}, 1),
+		closeC:      make(chan struct{}),
+		compPerErrC: make(chan error),
+		compErrC:    make(chan error),
+	}
+	db.mem = &memDB{db: db, DB: memdb.New(s.icmp, 64), ref: 1}
+	k1, v1 := []byte{vpNondetU8()}, []byte{vpNondetU8()}
+	tr, err := db.OpenTransaction()
+	vpAssert(err == nil, "open-ok")
+	vpAssert(tr.Put(k1, v1, nil) == nil, "tr-put-ok")
+	nfail = vpChoose(4)
+	cerr := tr.Commit()
+	if cerr != nil {
+		tr.Discard()
+	}
+	cs.reap()
+	db2, err2 := zzOpenDB(&zzCrashStor{Storage: mem, crashAt: -1})
+	vpAssert(err2 == nil, "reopen-after-failed-commit-and-discard-succeeds")
+	if err2 != nil {
+		return
+	}
+	vpAssert(db2.checkAndCleanFiles() == nil, "reopened-db-has-all-its-tables")
+	got, gerr := db2.get(nil, nil, k1, db2.seq, nil)
+	if cerr == nil {
+		vpAssert(gerr == nil && len(got) == 1 && got[0] == v1[0], "committed-write-visible-after-reopen")
+	} else {
+		vpAssert(gerr == ErrNotFound, "discarded-write-invisible-after-reopen")
+	}
+}
